@@ -76,3 +76,25 @@ Definition opt_td_truth (t : option Z) : bool := match t with None => false | So
 Definition gtz_is (a b : gtz) : bool := gz_id a =? gz_id b.
 Definition gz_utcoffset_us (tz : gtz) : Z := MEG * gz_off tz.     (* FixedTimezone._utcoffset = timedelta(seconds=offset) *)
 Definition opt_tz_or (a b : option gtz) : option gtz := match a with Some _ => a | None => b end.   (* `a or b` on None / timezone objects *)
+
+(* ---- operands of + / - and Date objects (DateTime / Date arithmetic entry points) ----
+   gop: the right operand of `+` / `-`: its class (0 = a plain datetime.timedelta, 1 = a pendulum.Duration that is not an Interval,
+   2 = a pendulum.Interval), its native timedelta value in microseconds, the VALUES its accessors years, months, weeks, remaining_days, hours,
+   minutes, remaining_seconds, microseconds return (Model/Duration.v defines them for a Duration), and `_signature` as the list of the eight
+   keyword values it was built with ([] when the attribute is missing: AbsoluteDuration).  delta.days of a timedelta = td_norm's days.
+   gdate: a pendulum Date (or a native date) = the wall value of its midnight; date(y, m, d) / Date(y, m, d) = nat_date_new. *)
+Record gop := mkgop { op_kind : Z; op_us : Z; op_years : Z; op_months : Z; op_weeks : Z; op_rdays : Z; op_hours : Z; op_minutes : Z;
+                      op_rsecs : Z; op_micro : Z; op_sig : list Z }.
+Definition op_days (o : gop) : Z := op_us o / us_per_day.
+Record gdate := mkgdate { gd_wall : Z }.
+Definition gd_year (d : gdate) : Z := let '(y, _, _, _, _, _, _) := fields_of_wall (gd_wall d) in y.
+Definition gd_month (d : gdate) : Z := let '(_, m, _, _, _, _, _) := fields_of_wall (gd_wall d) in m.
+Definition gd_day (d : gdate) : Z := let '(_, _, dd, _, _, _, _) := fields_of_wall (gd_wall d) in dd.
+Definition nat_date_new (y m d : Z) : result gdate :=
+  if (1 <=? y) && (y <=? 9999) && valid_dateb y m d then Ok (mkgdate ((ymd2ord y m d - 1) * us_per_day)) else Raise E_ValueError.
+(* add_duration on a date: the TRANSLATION Gen/AddDuration.v with n_isdt = false *)
+Definition g_add_duration_date (d : gdate) (years months weeks days : Z) : result gdate :=
+  match py_add_duration (mkndt (gd_wall d) false) years months weeks days 0 0 0 0 with
+  | Ok r => Ok (mkgdate (n_wall r))
+  | Raise e => Raise e
+  end.
